@@ -153,19 +153,24 @@ CHECKS = {
                 "futures below them; non-trivial = a cancel or a retry and a preemption",
         "assumptions": ["the wake-up protocol is proved generically (EventLoop.v); that each worker loop is an instance is validated by the lockstep machines (Retry) and the virtual-time bound"],
     },
-    "C20": {
-        "extra_props": ["Props/C20_src.v", "Props/MapFut_M.v"],
-        "modules": ["p_c20", "p_c20q"],
-        "rule": "p_c20q: the same stacks with every RetryExecutor._jobs / ThrottleExecutor._to_submit replaced by a logging container, the executor locks named and "
-                "every RETRY_QUEUE / THROTTLE_QUEUE update observed in the stand-in registry; the projection of each history onto (lock acquire/release, append, "
-                "removal, inc, dec) per executor instance is replayed on Model/QGauge.v (extracted); p_c20: seeded scenarios on real stacks with a stand-in prometheus_client: 1-5 submissions (success, failure with retries, blocked), "
-                "cancels at t=0/1/2/4 (queued, between retries, in flight), small or infinite timeouts, raising poll functions, optional early "
-                "shutdown; at final quiescence every gauge of the stack must be 0, no gauge may ever go negative, counters future_total / "
-                "future_cancel / future_error of the user-visible future type, poll_total / poll_error and exec_total must equal the observed "
-                "events; non-trivial = a cancel or a failing first attempt",
-        "assumptions": ["queue gauges: Model/QGauge.v in lockstep (a gauge update is attributed to the executor instance of the adjacent container operation of the same thread, the gauges being labelled by executor name only)",
-                        "PARTIAL: future_inprogress / exec_inprogress and the counters are decided by the registry-vs-reality comparison of this run; their pairing law is Model/Metrics.v"],
-    },
+    "C20": {   'assumptions': [   'queue gauges: Model/QGauge.v in lockstep (a gauge update is attributed to the executor instance of the adjacent container operation of the same thread, the gauges being '
+                           'labelled by executor name only)',
+                           'exec_inprogress / exec_total / future_inprogress / future_total / future_cancel / future_error: Model/ExecGauge.v in lockstep (an update is attributed to the executor '
+                           'instance / future whose __init__ / shutdown() / track_future / record_done bracket is innermost on the updating thread; the labelled series are sums over instances: '
+                           'c20_exec_gauge_sum_at_rest)',
+                           "PARTIAL: that every done future's record_done runs (add_done_callback) and the remaining counters (timeout, retry_total, poll_*, shutdown_cancel) are decided by the "
+                           'registry-vs-reality comparison of this run; the abstract pairing law is Model/Metrics.v'],
+        'extra_props': ['Props/C20_src.v', 'Props/MapFut_M.v', 'Props/C20_exec.v'],
+        'modules': ['p_c20', 'p_c20q', 'p_c20e'],
+        'rule': 'p_c20e: the same stacks (plus, in a third of the cases, two or three threads shutting the whole stack down at the same virtual time) with __init__ and shutdown() of every executor class '
+                "bracketed per instance, the answer of every ShutdownHelper logged under its gate lock, track_future / record_done bracketed per future with the future's real outcome, and every "
+                'exec_inprogress / exec_total / future_inprogress / future_total / future_cancel / future_error update observed in the stand-in registry and attributed to the innermost open bracket of '
+                'its thread; the projection of each history is replayed on Model/ExecGauge.v (extracted); p_c20q: the same stacks with every RetryExecutor._jobs / ThrottleExecutor._to_submit replaced by '
+                'a logging container, the executor locks named and every RETRY_QUEUE / THROTTLE_QUEUE update observed in the stand-in registry; the projection of each history onto (lock acquire/release, '
+                'append, removal, inc, dec) per executor instance is replayed on Model/QGauge.v (extracted); p_c20: seeded scenarios on real stacks with a stand-in prometheus_client: 1-5 submissions '
+                '(success, failure with retries, blocked), cancels at t=0/1/2/4 (queued, between retries, in flight), small or infinite timeouts, raising poll functions, optional early shutdown; at '
+                'final quiescence every gauge of the stack must be 0, no gauge may ever go negative, counters future_total / future_cancel / future_error of the user-visible future type, poll_total / '
+                'poll_error and exec_total must equal the observed events; non-trivial = a cancel or a failing first attempt'},
     "C12": {
         "extra_props": ["Props/C12_src.v"],
         "modules": ["p_c12", "p_c12w"],
